@@ -224,6 +224,53 @@ def _single_return(repo, cname, mname):
     return f, rets[0].value
 
 
+def _interval_paths(repo, cname, mname, slice_expr):
+    """A remainder_interval that is not one return statement (e.g. derived from trim_slice() in a common base class):
+    every returning path, as (valuation, (lo, hi)), with  x = self.trim_slice(); x.start / x.stop  replaced by the
+    two arguments of that class's slice(...)."""
+    import copy
+
+    c, f = repo.need_method(cname, mname)
+    body = copy.deepcopy(strip_docstring(f.body))
+    bound = {n.targets[0].id for st in body for n in ast.walk(st) if isinstance(n, ast.Assign) and isinstance(n.targets[0], ast.Name) and src(n.value) == "self.trim_slice()"}
+    if bound and not (isinstance(slice_expr, ast.Call) and chain(slice_expr.func) == "slice" and len(slice_expr.args) == 2):
+        raise Unrecognised(f"{cname}.trim_slice does not return slice(a, b)", repo.loc(f))
+
+    class T(ast.NodeTransformer):
+        def visit_Attribute(self, n):
+            self.generic_visit(n)
+            if isinstance(n.value, ast.Name) and n.value.id in bound and n.attr in ("start", "stop"):
+                return copy.deepcopy(slice_expr.args[0 if n.attr == "start" else 1])
+            return n
+
+    body = [T().visit(st) for st in body]
+    body = [st for st in body if not (isinstance(st, ast.Assign) and src(st.value) == "self.trim_slice()")]
+    for st in body:
+        ast.fix_missing_locations(st)
+    rows = explore(repo, body, {"self": Obj("self", nonnull=True)}, inline=False)
+    out = []
+    for r in rows:
+        if r.valuation.get("sign:len(self.sequence)") == -1:
+            continue
+        if r.exit[0] != "return" or not (isinstance(r.exit[1], Tup) and len(r.exit[1].items) == 2):
+            raise Unrecognised(f"{cname}.{mname}: a path does not return a pair", repo.loc(f))
+        zero = {}
+        for k, v in r.valuation.items():
+            if k.startswith("truthy:self.") and v is False:
+                zero[k[len("truthy:"):]] = Lin.k(0)
+            if k == "sign:len(self.sequence)" and v == 0:
+                zero["len(self.sequence)"] = Lin.k(0)
+        pair = []
+        for it in r.exit[1].items:
+            if isinstance(it, Obj):
+                it = Lin.atom(vkey(it))
+            if not isinstance(it, Lin):
+                raise Unrecognised(f"{cname}.{mname}: bound {vkey(it)} is not a number", repo.loc(f))
+            pair.append(it)
+        out.append((r.describe()["valuation"], zero, tuple(pair)))
+    return f, out
+
+
 def r4_intervals(repo, report):
     L = Lin.atom("len(self.sequence)")
     env = {"self": Obj("self", nonnull=True)}
@@ -241,7 +288,11 @@ def r4_intervals(repo, report):
         try:
             f1, e1 = _single_return(repo, cname, "trimmed")
             f2, e2 = _single_return(repo, cname, "trim_slice")
-            f3, e3 = _single_return(repo, cname, "remainder_interval")
+            try:
+                f3, e3 = _single_return(repo, cname, "remainder_interval")
+                paths3 = None
+            except Unrecognised:
+                f3, paths3 = _interval_paths(repo, cname, "remainder_interval", e2)
             f4, e4 = _single_return(repo, cname, "removed_sequence_length")
             f5, e5 = _single_return(repo, cname, "retained_adapter_interval")
         except Unrecognised as u:
@@ -254,10 +305,21 @@ def r4_intervals(repo, report):
         # trimmed() is applied to a read whose sequence is self.sequence, so len(read) == len(self.sequence)
         i1 = _interval_of(e1, env, L)
         i2 = _interval_of(e2, env, L)
-        i3 = _interval_of(e3, env, L)
+        if paths3 is not None:
+            # path by path: under what the path assumes (a bound that was tested falsy is 0) the pair is trimmed()'s interval
+            wrong = [(val, [x.key() for x in pair]) for val, zero, pair in paths3 if tuple(x.subst(zero) for x in pair) != tuple(x.subst(zero) for x in i1)]
+            report.ob("C03.R4", f"{cname}: trimmed / trim_slice / remainder_interval", i1 == i2 and not wrong and bool(paths3), facts={"trimmed": [x.key() for x in i1], "trim_slice": [x.key() for x in i2], "remainder_interval paths": len(paths3), "disagreeing": wrong[:2]},
+                      expected="the same [lo, hi) on every path", loc=repo.loc(f3), cases=len(paths3),
+                      why=(f"when {wrong[0][0]} remainder_interval() is {wrong[0][1]} but trimmed() keeps {[x.key() for x in i1]}: mask/lowercase leave bases untouched that trim removes" if wrong else ""))
+            i3 = i1
+            if wrong or i1 != i2:
+                continue
+        else:
+            i3 = _interval_of(e3, env, L)
         same = i1 == i2 == i3
-        report.ob("C03.R4", f"{cname}: trimmed / trim_slice / remainder_interval", same, facts={"trimmed": [x.key() for x in i1], "trim_slice": [x.key() for x in i2], "remainder_interval": [x.key() for x in i3]},
-                  expected="the same [lo, hi)", loc=repo.loc(f1), why="" if same else "the three encodings of the kept interval disagree")
+        if paths3 is None:
+            report.ob("C03.R4", f"{cname}: trimmed / trim_slice / remainder_interval", same, facts={"trimmed": [x.key() for x in i1], "trim_slice": [x.key() for x in i2], "remainder_interval": [x.key() for x in i3]},
+                      expected="the same [lo, hi)", loc=repo.loc(f1), why="" if same else "the three encodings of the kept interval disagree")
         removed = _lin_of(e4, env)
         want = L - (i3[1] - i3[0])
         report.ob("C03.R4", f"{cname}.removed_sequence_length", removed == want, facts={"returns": removed.key(), "len-(hi-lo)": want.key()}, expected="len(sequence) - (hi - lo)", loc=repo.loc(f4))
